@@ -61,7 +61,8 @@ function getPathAndLine (sourceMap, filename, line, column) {
       // a lookup by line only (column omitted or 0) asks for the beginning of that line, not for the end of the previous one
       const { originalSource, originalLine, originalColumn } = sourceMap.findEntry(line - 1, Math.max(column - 1, 0))
       return {
-        path: path.join(filePath, originalSource),
+        // a source named by an absolute path is that file, wherever the rewritten file lives
+        path: path.isAbsolute(originalSource) ? originalSource : path.join(filePath, originalSource),
         line: originalLine + 1,
         column: originalColumn + 1
       }
